@@ -153,10 +153,19 @@ pub enum Stack {
     Replace,
     Compact,
     CompactReplace,
+    /// `Replace::new(NoFinishHook::new(hook))`: the wrapper must forward `replace` itself
+    ReplaceNoFinish,
 }
 impl Stack {
-    pub const ALL: [Stack; 6] =
-        [Stack::None, Stack::MutRef, Stack::NoFinish, Stack::Replace, Stack::Compact, Stack::CompactReplace];
+    pub const ALL: [Stack; 7] = [
+        Stack::None,
+        Stack::MutRef,
+        Stack::NoFinish,
+        Stack::Replace,
+        Stack::Compact,
+        Stack::CompactReplace,
+        Stack::ReplaceNoFinish,
+    ];
     /// name in the request line; `&mut D` forwarding is the identity in the model
     pub fn name(&self) -> &'static str {
         match self {
@@ -165,6 +174,7 @@ impl Stack {
             Stack::Replace => "replace",
             Stack::Compact => "compact",
             Stack::CompactReplace => "compactreplace",
+            Stack::ReplaceNoFinish => "replacenofinish",
         }
     }
 }
@@ -321,6 +331,11 @@ where
         }
         Stack::CompactReplace => {
             let mut d = Compact::new(Replace::new(h), old, new);
+            let r = run_alg(c.alg, &mut d, old, or, new, nr, dl);
+            (r, get(&d.into_inner().into_inner()))
+        }
+        Stack::ReplaceNoFinish => {
+            let mut d = Replace::new(NoFinishHook::new(h));
             let r = run_alg(c.alg, &mut d, old, or, new, nr, dl);
             (r, get(&d.into_inner().into_inner()))
         }
